@@ -713,6 +713,19 @@ orc_compiler_check_sizes (OrcCompiler *compiler)
   int j;
   int max_size = 1;
 
+  /* nothing downstream copes with a variable of zero or negative size: the
+   * emulator allocates no storage for it and the NEON register-name helpers
+   * loop on the size */
+  for(i=0;i<ORC_N_VARIABLES;i++) {
+    if (compiler->vars[i].name == NULL) continue;
+    if (compiler->vars[i].size <= 0) {
+      ORC_COMPILER_ERROR (compiler, "variable %s has size %d",
+          compiler->vars[i].name, compiler->vars[i].size);
+      compiler->result = ORC_COMPILE_RESULT_UNKNOWN_PARSE;
+      return;
+    }
+  }
+
   for(i=0;i<compiler->n_insns;i++) {
     OrcInstruction *insn = compiler->insns + i;
     OrcStaticOpcode *opcode = insn->opcode;
